@@ -32,7 +32,7 @@ def model_stage(ctx):
     q = ctx.quick()
     ctx.spec_scratch(SUB)          # created once, before the parallel runs share it
     good = ["MC_TL_one.cfg", "MC_TL_two.cfg", "MC_TL_gc.cfg"] if q else \
-           ["MC_TL_one_t.cfg", "MC_TL_two_t.cfg", "MC_TL_gc_t.cfg", "MC_TL_b2_t.cfg"]
+           ["MC_TL_one_t.cfg", "MC_TL_kinds_t.cfg", "MC_TL_two_t.cfg", "MC_TL_gc_t.cfg", "MC_TL_gc2_t.cfg", "MC_TL_b2_t.cfg"]
     devs = ["MC_TL_dev_%s.cfg" % d for d in DEVIATIONS]
     w = max(2, ctx.ncpu // 4)
     errors = []
@@ -116,14 +116,30 @@ def judge(ctx, events, tag, limit=40000):
     return fails
 
 
-def signature(f, ev):
-    c = f.get("ctx") or {}
-    kind = sorted(f["what"])[0]
-    sig = {"part": "transferlog", "kind": kind, "backend": (ev.get("cfg") or "?/?").split("/")[-1]}
+PRIORITY = ("IterNoError", "IterOrdered", "IterNoLoss", "LastUpdated")
+
+
+def question(world, ev):
+    """What identifies a question put to several replicas at one checkpoint."""
     if ev["event"] == "iter":
-        sig.update({"log": ev.get("kind"), "bound": ev.get("bclass"), "unflushed": bool(ev.get("unflushed")),
-                    "gc": ev.get("gcb", -1) >= 0})
-    return sig, c
+        return (world, "iter", ev["h"], ev["acc"], ev["kind"], ev["tb"], ev.get("bclass"))
+    return (world, "lastupd", ev["h"], ev["acc"])
+
+
+def signature(f, ev, scope):
+    """Small, stable class of a failure.  scope 'all-replicas': every replica asked the same question gave a rejected
+    answer (the defect does not depend on anything node-local); 'node-local': only some did - then the backend, whether
+    the answer came (partly) from the write cache, GC and the kind of bound are the input class; 'replay': worlds
+    following a TLC behaviour observe one replica per step."""
+    kind = [k for k in PRIORITY if k in f["what"]] or sorted(f["what"])
+    sig = {"part": "transferlog", "kind": kind[0], "scope": scope}
+    if scope != "all-replicas":
+        sig["backend"] = (ev.get("cfg") or "?/?").split("/")[-1]
+        if ev["event"] == "iter":
+            sig.update({"unflushed": bool(ev.get("unflushed")), "gc": ev.get("gcb", -1) >= 0})
+            if scope == "node-local":
+                sig["bound"] = ev.get("bclass")
+    return sig
 
 
 def extras_drift(ctx, events):
@@ -183,16 +199,26 @@ def selftest(ctx, events):
     need = {"drop", "dup", "swap", "lu"}
     if not need <= set(done):
         raise vlib.Inconclusive("transfer-log self-test could not find places to corrupt: %s" % sorted(need - set(done)))
+    # one TLC run over the concatenation of the corrupted worlds (each keeps its init / block events and ends with the
+    # corrupted answer): exactly the last line of each segment must be reported, with the expected predicate
     st, trn = ctx.states, ctx.transitions
+    seg_all, last_line = [], {}
     for name, (evs, i, bad, expect) in sorted(done.items()):
-        seg = [x for x in evs[:i] if x["event"] in ("init", "block")] + [bad]
-        path = os.path.join(ctx.work, "tl-selftest-%s.ndjson" % name)
-        vlib.write_ndjson(path, seg)
-        fails = ctx.trace_judge(SUB, "TransferLogTrace.tla", "Trace_TL.cfg", path, timeout=600)
-        if not any(expect in f["what"] for f in fails):
-            raise vlib.Inconclusive("transfer-log binding self-test %s: corrupted trace not rejected (%s expected)" % (name, expect))
-        ctx.extra["tl_binding_selftests"] = ctx.extra.get("tl_binding_selftests", 0) + 1
+        seg_all += [x for x in evs[:i] if x["event"] in ("init", "block")] + [bad]
+        last_line[len(seg_all)] = (name, expect)
+    path = os.path.join(ctx.work, "tl-selftest.ndjson")
+    vlib.write_ndjson(path, seg_all)
+    fails = ctx.trace_judge(SUB, "TransferLogTrace.tla", "Trace_TL.cfg", path, timeout=900)
     ctx.states, ctx.transitions = st, trn
+    got = {f["line"]: f["what"] for f in fails}
+    for line, (name, expect) in last_line.items():
+        if expect not in got.get(line, []):
+            raise vlib.Inconclusive("transfer-log binding self-test %s: corrupted answer not rejected (%s expected, got %s)" % (
+                name, expect, got.get(line)))
+    extra = [ln for ln in got if ln not in last_line]
+    if extra:
+        raise vlib.Inconclusive("transfer-log binding self-test: uncorrupted lines reported: %s" % extra[:5])
+    ctx.extra["tl_binding_selftests"] = len(last_line)
 
 
 def run_ext(ctx):
@@ -218,20 +244,34 @@ def run_ext(ctx):
     for e in events:
         kinds[e["event"]] = kinds.get(e["event"], 0) + 1
     ctx.extra["tl_trace_events"] = kinds
-    starts = {}
-    s = 0
+    starts, world_of, src_of, asked = {}, {}, {}, {}
+    s0 = 0
     for i, e in enumerate(events):
         if e["event"] == "init":
-            s = i
-        starts[i] = s
+            s0 = i
+        starts[i] = s0
+        if e["event"] in ("iter", "lastupd"):
+            asked.setdefault(question(s0, e), {})[e["r"]] = e.get("gcb", -1)
+    failed = {}
+    for f in fails:
+        ev = events[f["line"] - 1]
+        failed.setdefault(question(starts[f["line"] - 1], ev), set()).add(ev["r"])
     for f in fails:
         li = f["line"] - 1
         ev = events[li]
-        sig, c = signature(f, ev)
         init = events[starts[li]]
+        qk = question(starts[li], ev)
+        if init.get("src") == "tlc":
+            scope = "replay"
+        elif len(asked[qk]) > 1 and failed[qk] >= {r for r, g in asked[qk].items() if g < 0}:
+            scope = "all-replicas"      # every replica that has collected nothing (a GC replica may have lost the evidence)
+        else:
+            scope = "node-local"
+        sig = signature(f, ev, scope)
         ctx.violation(sig, {
             "what": "abstract predicate(s) %s false on the answer of a real replica" % sorted(f["what"]),
-            "where": c, "world": {k: init.get(k) for k in ("world", "src", "mtb", "batch", "replicas")},
+            "where": f.get("ctx") or {}, "replicas_asked": sorted(asked[qk]), "replicas_rejected": sorted(failed[qk]),
+            "world": {k: init.get(k) for k in ("world", "src", "mtb", "batch", "replicas")},
             "seed": ctx.seed, "tier": ctx.tier,
             "answer_head": (ev.get("res") or ev.get("lu") or [])[:12],
             "schedule": [{k: v for k, v in x.items() if k in ("event", "r", "h", "gcb")}
